@@ -4,8 +4,9 @@ namespace Driver.C11
 open Imdlv Imdlv.Peer Imdlv.Metainfo
 
 def urlOk (s : Bytes) : Bool :=
-  let t := s.take 8
-  t.take 7 == str "http://" || t == str "https://" || t.take 6 == str "udp://"
+  -- `scheme://…` with an alphabetic scheme (the forms the harness generates; `Url::parse` itself is not modelled)
+  let scheme := s.takeWhile fun b => (97 ≤ b && b ≤ 122) || (65 ≤ b && b ≤ 90)
+  !scheme.isEmpty && (s.drop scheme.length).take 3 == [58, 47, 47]
 
 def errName : FErr → String
   | .network => "Network" | .handshakeHeader => "PeerHandshakeHeader" | .handshakeInfohash => "PeerHandshakeInfohash"
